@@ -439,3 +439,46 @@ Proof.
   - intros ks [<-|[<-|[]]]; repeat constructor.
   - exact I.
 Qed.
+
+(* ---- the aggregators Gen/SrcAgg.v leaves out (agg_left_out): sum() over Amount / Position / Inventory, whose
+   accumulator is a Beancount Inventory.  They are translated on every run into Gen/SrcAggInv.v (group `agginv`,
+   harness/vf/src_agginv.py; owned by C12, regenerated by this check's hook too) and Proofs/SrcAggInv.v proves the same
+   shape of statement as for the scalar sums: "sum adds the non-NULL values from the type's zero" - run on one group the
+   way the scan / output loops above drive a node (initialize, update per row in source order, finalize, __call__), the
+   cell is the fold of Model/Inventory.v's addition over the group's non-NULL values starting from the EMPTY inventory,
+   in the node's own slot, every other slot of the store unchanged.  The zero is a fresh value per group (an aggregator
+   that adopts its first input as the accumulator has a different source term). ---- *)
+From Verif Require Model.PrimsLedger Model.PrimsAggInv Model.Inventory Gen.SrcAggInv Proofs.SrcAggInv.
+
+Theorem C02_source_sum_over_inventories : forall (call_ref : nat -> list pv -> pv) (k : PrimsAggInv.kind) (i kd ko : nat)
+    (value : pv) (slots : list pv) (ctxs : list pv) (ctx : pv) (vals : list (option PrimsAggInv.operand)),
+  (i < List.length slots)%nat -> call_ref kd [] = PrimsLedger.Inv.enc_inv [] ->
+  SrcAggInv.operands_on call_ref ko ctxs vals -> PrimsAggInv.of_kind k vals ->
+  SrcAggInv.run_group call_ref (SrcAggInv.kind_class k) (PrimsAggInv.inv_node i kd ko value) (PList slots) ctxs ctx =
+  Ok (PrimsAggInv.inv_node i kd ko (PrimsLedger.Inv.enc_inv (PrimsAggInv.sum_operands vals)),
+      PList (set_nth i (PrimsLedger.Inv.enc_inv (PrimsAggInv.sum_operands vals)) slots),
+      PrimsLedger.Inv.enc_inv (PrimsAggInv.sum_operands vals)).
+Proof. exact SrcAggInv.sum_fold_src. Qed.
+Print Assumptions C02_source_sum_over_inventories.
+
+(* the classes left out of agg_classes are exactly the three translated there *)
+Theorem C02_source_left_out_covered :
+  map (fun q => String.append "beanquery.query_env." q) agg_left_out = map (fun x => fst (fst (fst x))) Gen.SrcAggInv.agginv_classes.
+Proof. reflexivity. Qed.
+Print Assumptions C02_source_left_out_covered.
+
+(* Non-vacuity: sum(position) over a group with a NULL and a lot bought and sold *)
+Example C02_source_sum_over_inventories_example :
+  let lot := Some (Inventory.mkcost 1000 1 737000 None) in
+  let vals := [Some (PrimsAggInv.OPosition (Inventory.mkpos 5 2 lot)); None;
+               Some (PrimsAggInv.OPosition (Inventory.mkpos (-5) 2 lot)); Some (PrimsAggInv.OPosition (Inventory.mkpos 7 3 None))] in
+  let call_ref := fun (k : nat) (args : list pv) =>
+    match k, args with
+    | O, [PV (VInt n)] => PrimsAggInv.enc_operand (nth (Z.to_nat n) vals None)
+    | _, _ => PrimsLedger.Inv.enc_inv []
+    end in
+  SrcAggInv.operands_on call_ref 0 [PInt 0; PInt 1; PInt 2; PInt 3] vals /\
+  PrimsAggInv.of_kind PrimsAggInv.KPosition vals /\
+  PrimsAggInv.sum_operands vals = [((3, None), 7)].
+Proof. vm_compute. repeat split; repeat constructor. Qed.
+
